@@ -260,6 +260,7 @@ type c16Item struct {
 	tcpFatal bool // TCP: framing is lost; the receiver may end the connection here
 	foreign  bool // UDP: sent from a foreign source address
 	name     string
+	canon    []byte // what the delivered value encodes to, when that is not b itself (parts that carry nothing are dropped)
 }
 
 func c16Items() []c16Item {
@@ -277,10 +278,12 @@ func c16Items() []c16Item {
 		{b: fs[0], wellUDP: true, wellTCP: true, name: "ConnStateRes"},
 		{b: pack(&knxnet.TunnelReq{Channel: 2, SeqNumber: 4, Payload: &cemi.LDataInd{LData: cemi.LData{Info: cemi.Info{1, 2, 3, 4, 5}, Control2: cemi.Control2GroupAddr, Source: 0x1203, Destination: 0x0905, Data: &cemi.AppData{Command: cemi.GroupValueWrite, Data: []byte{1, 0xAA, 0xBB, 0xCC}}}}}), wellUDP: true, wellTCP: true, name: "TunnelReq-with-additional-info"},
 		{b: fr(0x0204, hex.EncodeToString(devDIB(0x1107))+"04020201"+"08fe0102030405aa"), wellUDP: true, wellTCP: true, name: "DescriptionRes-with-further-DIB"},
+		{b: fr(0x0204, hex.EncodeToString(devDIB(0x1108))+"04020201"+"0203"+"0205"), canon: fr(0x0204, hex.EncodeToString(devDIB(0x1108))+"04020201"), wellUDP: true, wellTCP: true, name: "DescriptionRes-with-empty-DIBs"},
 		{b: pack(&knxnet.RoutingInd{Payload: &cemi.LRawInd{LRaw: cemi.LRaw{9, 8, 7, 6, 5, 4, 3, 2, 1}}}), wellUDP: true, wellTCP: true, name: "RoutingInd-raw"},
 		{b: pack(&knxnet.TunnelReq{Channel: 2, SeqNumber: 5, Payload: c12FullFrame(1, c12Shape{254, 0})}), wellUDP: true, wellTCP: true, name: "TunnelReq-254-octet-payload"},
 		{b: pack(&knxnet.TunnelReq{Channel: 2, SeqNumber: 6, Payload: c12FullFrame(2, c12Shape{254, 255})}), wellUDP: true, wellTCP: true, name: "TunnelReq-largest-frame-529-octets"},
 		{b: fr(0x0999, "0102030405060708090a"), wellUDP: true, wellTCP: true, name: "service-type-the-library-does-not-decode"},
+		{b: pack(&knxnet.DiscReq{Channel: 3, Control: knxnet.HostInfo{Protocol: knxnet.UDP4, Port: 3671}}), wellUDP: true, wellTCP: true, name: "DiscReq-endpoint-0.0.0.0-with-a-port"},
 		{b: fs[1], foreign: true, wellTCP: true, name: "TunnelRes-from-foreign-source"},
 		{b: fr(0x0206, ""), name: "ConnRes-empty-body"},
 		{b: fr(0x0206, "05"), name: "ConnRes-1-octet-body"},
@@ -334,7 +337,11 @@ func c16HistoryLog(tcp bool, L int, logChoice bool) func() {
 				mayEnd = len(want)
 			}
 			if (tcp && it.wellTCP) || (!tcp && it.wellUDP && !it.foreign) {
-				want = append(want, hex.EncodeToString(it.b))
+				if it.canon != nil {
+					want = append(want, hex.EncodeToString(it.canon))
+				} else {
+					want = append(want, hex.EncodeToString(it.b))
+				}
 			}
 		}
 		mc.Log(Note("history " + strings.Join(names, ", ")))
